@@ -22,7 +22,7 @@ claim("C01", category="model_checking", engine="arraymc",
            "of <=N devices as lost / corrupted with unchanged timestamps / mixed, every rotating per-stripe pattern of N damaged blocks and every single "
            "file, link or directory deletion/truncation; after fix the data trees must equal the sync-time snapshot (bytes, mtime, link targets, "
            "hard-link identity, empty dirs), fix and a following check must report no error, and the C06 parity oracle must hold. "
-           "Later additions: twin files (same size and second, other nanoseconds) with the single-disk damage 'one recorded file moved over another'; rotating damage with truncated file tails; one configuration with persistent inodes (fake UUID); thorough: one configuration run with the start-up self test enabled. The disk that follows a position hole carries empty files, links and empty directories.",
+           "Later additions: twin files (same size and second, other nanoseconds) with the single-disk damage 'one recorded file moved over another'; rotating damage with truncated file tails; one configuration with persistent inodes (fake UUID); thorough: one configuration run with the start-up self test enabled. The disk that follows a position hole carries empty files, links and empty directories. Symbolic links re-pointed to a prefix of their target and to the target plus one character.",
       note="trusted: lab ground truth and libvp; <=4 data disks, 1-2 KiB blocks; corruption shapes only with hash size>=8; the decoder algebra for up to 251 disks is C02/C03's subject",
       design="3 C01")
 
@@ -74,7 +74,7 @@ claim("C07", category="fault_enumeration", engine="crashmc",
            "device (adds only; <=N devices after SIGINT), and a re-run sync must complete and restore full recoverability (each single device + one "
            "pair). fix after a lost disk is killed at every one of its calls and re-run: the final tree must equal the uninterrupted result (mtime "
            "of the file cut short excepted). "
-           'Later additions: graceful stop also for TERM (thorough HUP, QUIT) and between the level writes of a stripe; scenarios with split parity that does not grow, with and without -E; a part that holds one parity writer thread before each of its writes (threaded I/O, forced autosave) and kills the process as soon as a content save completes meanwhile.',
+           'Later additions: graceful stop also for TERM (thorough HUP, QUIT) and between the level writes of a stripe; scenarios with split parity that does not grow, with and without -E; a part that holds one parity writer thread before each of its writes (threaded I/O, forced autosave) and kills the process as soon as a content save completes meanwhile. A scenario whose only pending file is taken for a copy (split parity, no growth).',
       note="crash model: process death with completed syscalls durable (no reordering of unsynced writes); one recorded finding: torn parity write with a single level",
       design="3 C07")
 
@@ -98,7 +98,7 @@ claim("C09", category="fault_enumeration", engine="bytemc + crashmc",
            "other signal, no hang (60 s, re-run with 600 s) and no file changed. Part 2: sync, touch and scrub with 1,3 (thorough 1,2,3,5,7) content "
            "copies are killed before/after/in the middle of every state-changing call; every configured copy must be byte-identical to the old "
            "version or decode (CRC included) to one of the complete new versions, and all copies are identical after success. "
-           "Later additions: structure-aware mutations (every packed number replaced by 2^31-1, 2^31, 2^32-1 / 2^32, 2^63, 2^64-1); after every kill point the user's next sync must leave all copies identical (format-3 scenarios included); part 3 lets one or two freshly flushed copies rot silently before the re-read.",
+           "Later additions: structure-aware mutations (every packed number replaced by 2^31-1, 2^31, 2^32-1 / 2^32, 2^63, 2^64-1); after every kill point the user's next sync must leave all copies identical (format-3 scenarios included); part 3 lets one or two freshly flushed copies rot silently before the re-read. Part 4: every non-empty proper subset of three copies missing before a command that has nothing else to save.",
       note="new-version identity is the decoded model without inode numbers (inode numbers of data files differ between two materialisations of one state)",
       design="3 C09")
 
@@ -193,7 +193,7 @@ claim("C10", category="model_checking", engine="arraymc + bytemc",
            "parities) at each varint length boundary up to 2^64-1 / 2^32-1, nanoseconds invalid/0/1/999999999/2^30, info times at delta boundaries "
            "with alternating flags, sparse maps with single-block runs at positions 127..2^21, a 16389-block run and 300 deleted blocks - must be "
            "loaded, rewritten to exactly the encoder's bytes, and shown with the same values by list. "
-           "Later additions: configurations 'emptied' and 'phantom' (disks whose last remains are DELETED positions); C06's parity oracle and the transition oracles evaluated in every step; one configuration with persistent inodes. Several links and several empty directories on one disk.",
+           "Later additions: configurations 'emptied' and 'phantom' (disks whose last remains are DELETED positions); C06's parity oracle and the transition oracles evaluated in every step; one configuration with persistent inodes. Several links and several empty directories on one disk. Configuration codeleted (a position deleted on both disks, held by no file).",
       note="info times are multiples of 8 s and never in the future in reachable states; states are re-based between same-length lab roots because v3 content records absolute split paths",
       design="3 C10")
 
